@@ -298,7 +298,8 @@ func (e *SendSideBWE) onDelayUpdate(delayStats DelayStats) {
 
 	lossStats := e.lossController.getEstimate(delayStats.TargetBitrate)
 	bitrateChanged := false
-	bitrate := min(delayStats.TargetBitrate, lossStats.TargetBitrate)
+	// the loss-based estimator only knows its own fixed range: keep the result within the configured one
+	bitrate := clampInt(min(delayStats.TargetBitrate, lossStats.TargetBitrate), e.minBitrate, e.maxBitrate)
 	if bitrate != e.latestBitrate {
 		bitrateChanged = true
 		e.latestBitrate = bitrate
